@@ -170,7 +170,15 @@ def run(chk):
 
     def hist_job(arg):
         i, (names, steps, final) = arg
-        return names, steps, final, engine(exe, "converge", {"base": BASE, "steps": steps, "final": final, "no_fresh": True, "siblings": SIBLINGS}, f"h{i}")
+        spec = {"base": BASE, "steps": steps, "final": final, "no_fresh": True, "siblings": SIBLINGS}
+        r = engine(exe, "converge", spec, f"h{i}")
+        # the server's lock time-outs (4-8 s) turn into panics on an overloaded machine: a panic or a death of
+        # the engine is believed only if the same history does it again
+        if r.get("panicked") or "died" in r:
+            r2 = engine(exe, "converge", spec, f"h{i}b")
+            if not (r2.get("panicked") or "died" in r2):
+                r = r2
+        return names, steps, final, r
 
     states = set()
     transitions = 0
@@ -196,7 +204,7 @@ def run(chk):
         inc, frd = r["incremental"], fr["fresh"]
         outcomes.add(json.dumps(inc))
         if r.get("panicked"):
-            chk.violation("server-panicked:" + "/".join(names), {"history": names, "steps": steps, "final": final}, f"the server panicked during history {names}")
+            chk.violation("server-panicked:" + "/".join(names), {"history": names, "steps": steps, "final": final, "panic": r.get("panic")}, f"the server panicked (twice) during history {names}: {r.get('panic')}")
         elif inc != frd:
             chk.violation("diagnostics-differ:" + "/".join(names), {"base": BASE, "history": names, "steps": steps, "final": final, "incremental": inc, "fresh": frd},
                           f"history {names}: after didSave the server last published {json.dumps(inc)[:200]}, a fresh server publishes {json.dumps(frd)[:200]}")
